@@ -120,8 +120,12 @@ def run(ctx):
     # pass 2: free-running under ThreadSanitizer
     reps = 30 if thorough else 10
     races = 0
-    for combo, r, status, x in core.pmap(work_free, [(c, ctx.seed, reps) for c in combos]):
+    import os
+    free_jobs = [] if os.environ.get("VERIF_COV") else [(c, ctx.seed, reps) for c in combos]   # ./vf coverage has no tsan variant
+    for combo, r, status, x in core.pmap(work_free, free_jobs):
         name = "+".join(combo)
+        if r is None and status.get("exit") == 3 and "ThreadSanitizer" not in status["san"]:
+            raise core.HarnessError("driver gave up in the free-running pass of %s: %s" % (name, status))
         ctx.evaluations += reps
         san = status["san"]
         if "ThreadSanitizer" in san or (x or {}).get("exit") == "98":
